@@ -128,6 +128,14 @@ func (sc *NCSession) fitTimeouts() {
 			max = n
 		}
 	}
+	if sc.Server.Echo {
+		// an echoing transport sends the client's own requests back through the same slow pipe
+		for _, o := range sc.Ops {
+			if n := 2*(len(o.A)+len(o.B)+len(o.Filter)) + 800; n > max {
+				max = n
+			}
+		}
+	}
 	sc.TimeoutOpsUS = sc.ReadDelayUS * int64(600+3*max)
 }
 
@@ -347,7 +355,7 @@ func (nr *NCRun) Summary() string {
 	for i, s := range sent {
 		fmt.Fprintf(&sb, "  sent %d: %q\n", i, firstN(s, 200))
 	}
-	fmt.Fprintf(&sb, "transport: %d reads, %d writes, faults %v\n", len(nr.Tr.Reads), nr.Tr.NWrites(), nr.Tr.FaultFired)
+	fmt.Fprintf(&sb, "transport: %d reads, %d writes, faults %v\n", len(nr.Tr.Reads), nr.Tr.NWrites(), nr.Tr.Faults())
 
 	return sb.String()
 }
